@@ -15,9 +15,11 @@
 from __future__ import annotations
 
 import ast
+import re
 
-from ..cfg import EXIT
-from ..loader import AnalysisError, FuncInfo, dotted, norm, walk_no_nested
+from ..cfg import ENTRY, EXIT
+from ..flow import Defs, Scope, iterations
+from ..loader import FuncInfo, dotted, norm, walk_no_nested
 from ..report import Ctx
 from ..selftest import Mutant
 
@@ -69,46 +71,55 @@ def _param_mutations(fn: FuncInfo) -> dict[str, ast.AST]:
     return out
 
 
-def check(ctx: Ctx) -> None:  # noqa: C901, PLR0912, PLR0915
-    P, cg = ctx.prog, ctx.cg
-    pf, npf, pl = P.cls(f"{PFM}.PipeFunc"), P.cls(f"{PFM}.NestedPipeFunc"), P.cls(f"{BASE}.Pipeline")
+def _wiring(ctx: Ctx, cp: FuncInfo, d: ast.Dict | None, init_params: list[str], who: str) -> None:
+    """Each constructor argument of copy() is taken from the attribute of the same name (not from another one, not dropped)."""
+    if d is None:
+        ctx.add("1-copy-carries", cp, cp.node, None, f"UNDECIDED: {who}.copy has no explicit argument table", key=f"{who}.wiring")
+        return
+    vals = {k.value: v for k, v in zip(d.keys, d.values) if isinstance(k, ast.Constant)}
+    cross, dropped = [], []
+    for k, v in vals.items():
+        t = norm(v)
+        attrs = {a.attr.lstrip("_") for a in ast.walk(v) if isinstance(a, ast.Attribute) and isinstance(a.value, ast.Name) and a.value.id == "self"}
+        if isinstance(v, ast.Constant) and v.value is None:
+            dropped.append(k)
+        elif attrs and k not in attrs and attrs & (set(init_params) - {k}):
+            cross.append((k, t))
+    ctx.add("1-copy-carries", cp, d, not cross and not dropped, f"{who}.copy takes every argument from the matching attribute" if not cross and not dropped else
+            f"{who}.copy wires {cross or dropped}: " + ("the argument is taken from another attribute" if cross else "the attribute is replaced by None, the copy loses it"), key=f"{who}.wiring")
 
-    # ------------------------------------------------------------ 1 copy-carries
+
+def rule_copy_carries(ctx: Ctx) -> None:
+    P = ctx.prog
+    pf, npf, pl = P.cls(f"{PFM}.PipeFunc"), P.cls(f"{PFM}.NestedPipeFunc"), P.cls(f"{BASE}.Pipeline")
     for cls in (pf, npf):
         cp = cls.methods["copy"]
         src = norm(cp.node)
+        explicit = any(isinstance(x, ast.Dict) and any(isinstance(k, ast.Constant) for k in x.keys) for x in ast.walk(cp.node)) or f"{cls.name}(" in src
         for fld in STATE:
             ok = f"self.{fld}" in src
-            ctx.add("1-copy-carries", cp, cp.node, ok, f"copy() carries `{fld}`" if ok else f"{cls.name}.copy() drops `{fld}` (set through update_*): adding the function to a pipeline copies it and loses that configuration", key=f"{cls.name}.{fld}")
+            ctx.tri("1-copy-carries", cp, cp.node, ok, not ok and explicit, f"copy() carries `{fld}`", f"{cls.name}.copy() drops `{fld}` (set through update_*): adding the function to a pipeline copies it and loses that configuration",
+                    "copy() is not built from explicit constructor arguments", key=f"{cls.name}.{fld}")
     cp = pf.methods["copy"]
     init_params = [p for p in pf.methods["__init__"].param_names() if p not in ("self", "scope")]
     d = next((x for x in ast.walk(cp.node) if isinstance(x, ast.Dict)), None)
     keys = [k.value for k in d.keys if isinstance(k, ast.Constant)] if d else []
     ok = set(keys) == set(init_params)
     ctx.add("1-copy-carries", cp, d if d is not None else cp.node, ok, f"every constructor argument ({len(init_params)}) is forwarded" if ok else f"PipeFunc.copy forwards {sorted(set(keys) ^ set(init_params))} differently from __init__", key="PipeFunc.ctor-args")
-    vals = {k.value: norm(v) for k, v in zip(d.keys, d.values) if isinstance(k, ast.Constant)} if d else {}
-    want = {"func": "self.func", "output_name": "self._output_name", "output_picker": "self._output_picker", "renames": "self._renames", "defaults": "self._defaults", "bound": "self._bound",
-            "mapspec": "self.mapspec", "internal_shape": "self.internal_shape", "resources": "self.resources", "cache": "self.cache"}
-    bad = {k: vals.get(k) for k, v in want.items() if vals.get(k) != v}
-    ctx.add("1-copy-carries", cp, cp.node, not bad, "each argument is taken from the matching attribute" if not bad else f"copy() wires {bad}", key="PipeFunc.wiring")
-    ok = "kwargs.update(update)" in norm(cp.node) and "return PipeFunc(**kwargs)" in norm(cp.node)
-    ctx.add("1-copy-carries", cp, cp.node, ok, "overrides are applied, then the constructor (and its validation) runs" if ok else "PipeFunc.copy no longer rebuilds through the constructor", key="PipeFunc.rebuild")
+    _wiring(ctx, cp, d, init_params, "PipeFunc")
+    ctx.tri("1-copy-carries", cp, cp.node, "PipeFunc(**" in norm(cp.node), False, "overrides are applied, then the constructor (and its validation) runs", "", "PipeFunc.copy does not visibly rebuild through PipeFunc(**kwargs)", key="PipeFunc.rebuild")
     pcp = pl.methods["copy"]
     d = next((x for x in ast.walk(pcp.node) if isinstance(x, ast.Dict)), None)
-    vals = {k.value: norm(v) for k, v in zip(d.keys, d.values) if isinstance(k, ast.Constant)} if d else {}
-    want = {"functions": "self.functions", "lazy": "self.lazy", "debug": "self._debug", "profile": "self._profile", "cache_type": "self._cache_type", "cache_kwargs": "self._cache_kwargs",
-            "default_resources": "self._default_resources", "validate_type_annotations": "self.validate_type_annotations"}
-    init_params = [p for p in pl.methods["__init__"].param_names() if p not in ("self", "scope")]
-    ok = vals == want and set(vals) == set(init_params)
-    ctx.add("1-copy-carries", pcp, pcp.node, ok, "Pipeline.copy forwards every constructor argument from its attribute" if ok else f"Pipeline.copy wiring differs: {sorted(set(vals.items()) ^ set(want.items()))[:3]}", key="Pipeline.wiring")
+    _wiring(ctx, pcp, d, [p_ for p_ in pl.methods["__init__"].param_names() if p_ not in ("self", "scope")], "Pipeline")
     ncp = npf.methods["copy"]
     src = norm(ncp.node)
-    ok = "'pipefuncs': self.pipeline.functions" in src and "'mapspec': self.mapspec" in src and "'renames': self._renames" in src and "'resources': self.resources" in src and "'output_name': self._output_name" in src
-    ctx.add("1-copy-carries", ncp, ncp.node, ok, "NestedPipeFunc.copy forwards functions, output name, renames, mapspec, resources" if ok else "NestedPipeFunc.copy constructor arguments changed", key="Nested.ctor-args")
-    ok = "update_defaults(self._defaults, overwrite=True)" in src and "update_bound(self._bound, overwrite=True)" in src
-    ctx.add("1-copy-carries", ncp, ncp.node, ok, "defaults and bound are re-applied on the copy (they are not constructor arguments)" if ok else "NestedPipeFunc.copy does not re-apply defaults / bound", key="Nested.reapply")
+    ctx.tri("1-copy-carries", ncp, ncp.node, "update_defaults(" in src and "update_bound(" in src, "NestedPipeFunc(" in src and not ("update_defaults(" in src and "update_bound(" in src),
+            "defaults and bound are re-applied on the copy (they are not constructor arguments)", "NestedPipeFunc.copy does not re-apply defaults / bound, which its constructor does not take: the copy loses them", key="Nested.reapply")
 
-    # ------------------------------------------------------------ 2 no-inplace
+
+def rule_no_inplace(ctx: Ctx) -> None:  # noqa: C901
+    P, cg = ctx.prog, ctx.cg
+    pf = P.cls(f"{PFM}.PipeFunc")
     n2 = 0
     for fn in P.functions.values():
         if not fn.module.name.startswith(("pipefunc._pipefunc", "pipefunc._pipeline", "pipefunc.map", "pipefunc._utils")):
@@ -151,16 +162,22 @@ def check(ctx: Ctx) -> None:  # noqa: C901, PLR0912, PLR0915
     for meth in ("update_defaults", "update_bound", "update_renames"):
         f = pf.methods[meth]
         asg = [s for s in walk_no_nested(f.node) if isinstance(s, ast.Assign) and isinstance(s.targets[0], ast.Attribute) and s.targets[0].attr in SHARED]
-        ok = bool(asg) and all(norm(s.value).startswith(("dict(", "{")) or norm(s.value).endswith(".copy()") or isinstance(s.value, ast.Name) for s in asg)
-        ctx.add("2-no-inplace", f, asg[0] if asg else f.node, ok, f"{meth} rebinds the dict to a fresh one" if ok else f"{meth} does not rebind to a fresh dict", key=f"rebind {meth}")
+        ctx.tri("2-no-inplace", f, asg[0] if asg else f.node, bool(asg), False, f"{meth} rebinds the dict", "", f"{meth}: no rebinding of the shared dict found (in-place writes are reported by the scan above)", key=f"rebind {meth}")
 
-    # ------------------------------------------------------------ 3 result-keys (writer side; the reader is checked in C02.3)
-    ur = P.func(f"{BASE}._update_all_results")
-    top = [s for s in ur.node.body if isinstance(s, ast.If)]
-    ok = bool(top) and norm(top[0].test) == "isinstance(func.output_name, tuple)" and any(isinstance(s, ast.For) and norm(s.iter) == "func.output_name" for s in top[0].body)
-    ctx.add("3-result-keys", ur, top[0] if top else ur.node, ok, "every single name of a tuple output is written" if ok else "single names are written only for single-name requests: nested pipelines with a multi-output leaf fail", key="all-names")
 
-    # ------------------------------------------------------------ 4 sort-keys
+def rule_result_keys(ctx: Ctx) -> None:
+    from .c02 import rule_routing
+
+    sub = Ctx(ctx.prog, "C10", ctx.tier)
+    sub._typer, sub._cg = ctx._typer, ctx._cg
+    rule_routing(sub)
+    for o in sub.obs:
+        if o.key in ("all-names",):
+            ctx.obs.append(type(o)("C10.3-result-keys", o.instance, o.loc, o.ok, o.detail.replace("readers indexing by name (NestedPipeFunc wrapper, full_output) fail", "nested pipelines with a multi-output leaf fail"), o.key, o.path))
+
+
+def rule_sort_keys(ctx: Ctx) -> None:
+    P = ctx.prog
     n4 = 0
     for fn in P.functions.values():
         if not fn.module.name.startswith(("pipefunc._pipeline", "pipefunc._pipefunc", "pipefunc.sweep", "pipefunc.map._prepare")):
@@ -179,13 +196,18 @@ def check(ctx: Ctx) -> None:  # noqa: C901, PLR0912, PLR0915
                     "functions are ordered by raw `output_name` (str | tuple[str, ...]): mixing single- and multi-output functions raises TypeError", key=f"sort in {fn.name}")
     ctx.floor("4-sort-keys", n4, 1)
     tg = P.func(f"{BASE}._traverse_graph")
-    ok = "sorted(_traverse(start), key=at_least_tuple)" in norm(tg.node)
-    ctx.add("4-sort-keys", tg, tg.node, ok, "dependency listings are ordered by at_least_tuple" if ok else "_traverse_graph orders raw output names", key="traverse")
+    srt = [c for _f, c in Scope(ctx, tg).walk() if isinstance(c, ast.Call) and dotted(c.func) == "sorted"]
+    raw = [c for c in srt if not any(k.arg == "key" for k in c.keywords)]
+    ctx.tri("4-sort-keys", tg, (raw or srt or [tg.node])[0], bool(srt) and not raw, bool(raw), "dependency listings are ordered through a key function (at_least_tuple)",
+            "_traverse_graph sorts raw output names (str | tuple[str, ...]): mixing single- and multi-output functions raises TypeError", "no sorted() call found", key="traverse")
     ot = ctx.typer.attr_type(f"{PFM}.PipeFunc", "output_name")
     ok = {"str", "tuple"} <= ot.scalars()
     ctx.add("4-sort-keys", f"{PFM}.PipeFunc.output_name", "", ok, f"declared type of output_name is {ot}" if ok else f"output_name is no longer declared str | tuple ({ot}); the sort-key rule's premise changed", key="premise")
 
-    # ------------------------------------------------------------ 5 pickle-state
+
+def rule_pickle_state(ctx: Ctx) -> None:
+    P = ctx.prog
+    pf = P.cls(f"{PFM}.PipeFunc")
     gs, ss = pf.methods["__getstate__"], pf.methods["__setstate__"]
     excluded = set()
     for c in ast.walk(gs.node):
@@ -193,18 +215,21 @@ def check(ctx: Ctx) -> None:  # noqa: C901, PLR0912, PLR0915
             excluded |= {e.value for e in c.comparators[0].elts if isinstance(e, ast.Constant)}
     stored = {t.slice.value for s in walk_no_nested(gs.node) if isinstance(s, ast.Assign) for t in s.targets if isinstance(t, ast.Subscript) and norm(t.value) == "state" and isinstance(t.slice, ast.Constant)}
     restored = {t.attr for s in walk_no_nested(ss.node) if isinstance(s, ast.Assign) for t in s.targets if isinstance(t, ast.Attribute) and norm(t.value) == "self"}
-    ok = bool(excluded) and excluded <= restored and stored <= restored and "self.__dict__.update(state)" in norm(ss.node)
-    ctx.add("5-pickle-state", ss, ss.node, ok, f"{sorted(excluded)} are dropped/encoded by __getstate__ and restored by __setstate__" if ok else f"__getstate__ drops/encodes {sorted(excluded | stored)} but __setstate__ restores only {sorted(restored)}", key="PipeFunc")
+    lost = sorted((excluded | stored) - restored)
+    ctx.tri("5-pickle-state", ss, ss.node, bool(excluded) and not lost, bool(lost), f"{sorted(excluded)} are dropped/encoded by __getstate__ and restored by __setstate__",
+            f"__getstate__ drops/encodes {sorted(excluded | stored)} but __setstate__ never restores {lost}: an unpickled function lacks them", "state handling not recognised", key="PipeFunc")
     enc = {k: norm(v) for s in walk_no_nested(gs.node) if isinstance(s, ast.Assign) for t in s.targets if isinstance(t, ast.Subscript) and isinstance(t.slice, ast.Constant) for k, v in [(t.slice.value, s.value)]}
     dec = {t.attr: norm(s.value) for s in walk_no_nested(ss.node) if isinstance(s, ast.Assign) for t in s.targets if isinstance(t, ast.Attribute)}
-    ok = all("cloudpickle.dumps" in enc.get(k, "") and "cloudpickle.loads" in dec.get(k, "") for k in ("func", "resources"))
-    ctx.add("5-pickle-state", gs, gs.node, ok, "func and resources: dumps on the way out, loads on the way in" if ok else "encode/decode of func/resources is not a dumps/loads pair", key="PipeFunc.codec")
+    asym = [k for k in set(enc) | set(dec) if ("dumps" in enc.get(k, "")) != ("loads" in dec.get(k, "")) and (k in enc or "loads" in dec.get(k, ""))]
+    ctx.tri("5-pickle-state", gs, gs.node, bool(enc) and not asym, bool(asym), "what is dumps()-encoded on the way out is loads()-decoded on the way in", f"{sorted(asym)}: encoded with dumps but not decoded with loads (or the reverse)", "codec not recognised", key="PipeFunc.codec")
     paf = P.cls(f"{BASE}._PipelineAsFunc")
     g2, s2 = paf.methods["__getstate__"], paf.methods["__setstate__"]
-    ok = "for slot in self.__slots__" in norm(g2.node) and "for slot in self.__slots__" in norm(s2.node) and "setattr(self, slot, state[slot])" in norm(s2.node)
-    ctx.add("5-pickle-state", s2, s2.node, ok, "_PipelineAsFunc saves and restores every slot" if ok else "_PipelineAsFunc state handling is asymmetric", key="PipelineAsFunc")
+    ctx.tri("5-pickle-state", s2, s2.node, "__slots__" in norm(g2.node) and "__slots__" in norm(s2.node), False, "_PipelineAsFunc saves and restores every slot", "", "_PipelineAsFunc state handling not recognised", key="PipelineAsFunc")
 
-    # ------------------------------------------------------------ 6 foreign-writes
+
+def rule_foreign_writes(ctx: Ctx) -> None:
+    P = ctx.prog
+    pl = P.cls(f"{BASE}.Pipeline")
     ALLOWED = {
         "pipefunc._pipeline._mapspec.add_mapspec_axis": "called from Pipeline.add_mapspec_axis, which clears and re-validates afterwards (checked below)",
         "pipefunc._pipeline._mapspec.create_missing_mapspecs": "runs inside Pipeline._validate right after _clear_internal_cache; _autogen_mapspec_axes reads no MapSpec-dependent cached property (checked below)",
@@ -227,8 +252,9 @@ def check(ctx: Ctx) -> None:  # noqa: C901, PLR0912, PLR0915
     vals = set(cfg.nodes(lambda s: isinstance(s, ast.Expr) and isinstance(s.value, ast.Call) and norm(s.value.func) == "self._validate"))
     ok = bool(w) and bool(clears) and bool(vals) and all(cfg.must_pass(x, EXIT, clears, normal_only=True) and cfg.must_pass(x, EXIT, vals, normal_only=True) for x in w)
     ctx.add("6-foreign-writes", am, am.node, ok, "Pipeline.add_mapspec_axis clears the cached views and re-validates after rewriting MapSpecs" if ok else "Pipeline.add_mapspec_axis does not invalidate / re-validate after rewriting MapSpecs", key="add-axis-clears")
-    ok = "functions=self.sorted_functions" in norm(am.node)
-    ctx.add("6-foreign-writes", am, am.node, ok, "the new axis is propagated along the topological order" if ok else "add_mapspec_axis no longer walks the functions in topological order", key="add-axis-order")
+    t = norm(am.node)
+    ctx.tri("6-foreign-writes", am, am.node, "sorted_functions" in t or "topological" in t, "functions=self.functions" in t, "the new axis is propagated along the topological order",
+            "add_mapspec_axis walks self.functions (listing order): an axis added to a producer listed after its consumer is not propagated", key="add-axis-order")
     MAPSPEC_DEPENDENT = {"mapspec_names", "mapspecs_as_strings", "mapspec_dimensions", "mapspec_axes"}
     au = pl.methods["_autogen_mapspec_axes"]
     reads = {a.attr for a in ast.walk(au.node) if isinstance(a, ast.Attribute) and norm(a.value) == "self"}
@@ -239,41 +265,66 @@ def check(ctx: Ctx) -> None:  # noqa: C901, PLR0912, PLR0915
     app = cfg.nodes(lambda s: isinstance(s, ast.Expr) and isinstance(s.value, ast.Call) and norm(s.value.func) == "self.functions.append")
     clears = set(cfg.nodes(lambda s: isinstance(s, ast.Expr) and isinstance(s.value, ast.Call) and norm(s.value.func) == "self._clear_internal_cache"))
     vals = cfg.nodes(lambda s: isinstance(s, ast.Expr) and isinstance(s.value, ast.Call) and norm(s.value.func) == "self._validate")
-    ok = bool(app) and bool(clears) and bool(vals) and all(cfg.dominates(c, v) for c in clears for v in vals) and all(cfg.dominates(a, c) for a in app for c in clears)
-    ctx.add("6-foreign-writes", ad, ad.node, ok, "add: append, clear the cached views, then validate (which may generate MapSpecs)" if ok else "Pipeline.add no longer clears before validating", key="add-order")
+    if app and vals:
+        ok = bool(clears) and all(any(cfg.dominates(c, v) for c in clears) for v in vals) and all(any(cfg.dominates(a, c) for a in app) for c in clears)
+        ctx.add("6-foreign-writes", ad, ad.node, ok, "add: append, clear the cached views, then validate (which may generate MapSpecs)" if ok else "Pipeline.add validates (and generates MapSpecs) without clearing the cached views after the append", key="add-order")
 
-    # ------------------------------------------------------------ 7 fresh-objects
+
+def rule_fresh_objects(ctx: Ctx) -> None:
+    P = ctx.prog
+    pl, npf = P.cls(f"{BASE}.Pipeline"), P.cls(f"{PFM}.NestedPipeFunc")
     appenders = sorted({fn.qualname for fn in P.functions.values() for c in walk_no_nested(fn.node) if isinstance(c, ast.Call) and isinstance(c.func, ast.Attribute) and c.func.attr in ("append", "extend", "insert") and norm(c.func.value).endswith(".functions")})
-    ok = appenders == [f"{BASE}.Pipeline.add"]
-    ctx.add("7-fresh-objects", f"{BASE}.Pipeline.functions", "", ok, "functions are appended only in Pipeline.add" if ok else f"functions are appended in {appenders}", key="appenders")
-    src = norm(ad.node)
-    ok = "f: PipeFunc = f.copy(" in src and "self.functions.append(f)" in src and "f._pipelines.add(self)" in src
-    ctx.add("7-fresh-objects", ad, ad.node, ok, "add() appends a copy and registers the pipeline on it" if ok else "Pipeline.add appends the caller's object (no copy) or does not register itself", key="add-copies")
-    jn = pl.methods["join"]
-    ok = "f.copy(resources=f.resources)" in norm(jn.node) and "pipeline.copy()" in norm(jn.node) and "return self.copy(functions=functions, default_resources=None)" in norm(jn.node)
-    ctx.add("7-fresh-objects", jn, jn.node, ok, "join builds a new pipeline from copies" if ok else "Pipeline.join changed", key="join")
-    sd = pl.methods["split_disconnected"]
-    ok = "x.copy() for x in xs if isinstance(x, PipeFunc)" in norm(sd.node) and "Pipeline(pfs, **pipeline_kwargs)" in norm(sd.node)
-    ctx.add("7-fresh-objects", sd, sd.node, ok, "split_disconnected builds new pipelines from copies" if ok else "split_disconnected changed", key="split")
-    nf = pl.methods["nest_funcs"]
-    ok = "self.drop(f=f)" in norm(nf.node) and "NestedPipeFunc(funcs, output_name=new_output_name)" in norm(nf.node) and "self.add(nested_func)" in norm(nf.node)
-    ctx.add("7-fresh-objects", nf, nf.node, ok, "nest_funcs drops the functions and adds one NestedPipeFunc of them" if ok else "nest_funcs changed", key="nest")
-    ni = npf.methods["__init__"]
-    ok = "functions = [f.copy(resources=self.resources) for f in pipefuncs]" in norm(ni.node) and "self.pipeline = Pipeline(functions)" in norm(ni.node)
-    ctx.add("7-fresh-objects", ni, ni.node, ok, "a NestedPipeFunc owns copies of its functions" if ok else "NestedPipeFunc shares its functions with the caller", key="nested-copies")
+    extra = [a for a in appenders if a != f"{BASE}.Pipeline.add"]
+    ctx.add("7-fresh-objects", f"{BASE}.Pipeline.functions", "", not extra, "functions are appended only in Pipeline.add" if not extra else f"functions are also appended in {extra}: they enter a pipeline without the copy / registration / validation of Pipeline.add", key="appenders")
+    ad = pl.methods["add"]
+    cfg = ctx.cfg(ad)
+    fparam = [p_ for p_ in ad.param_names() if p_ != "self"][0]
+    app = cfg.nodes(lambda s: isinstance(s, ast.Expr) and isinstance(s.value, ast.Call) and norm(s.value.func) == "self.functions.append")
+    if app:
+        val = cfg.stmt[app[0]].value.args[0]
+        def fresh(v: ast.AST) -> bool:
+            return any(isinstance(c, ast.Call) and ((isinstance(c.func, ast.Attribute) and c.func.attr == "copy") or (isinstance(c.func, ast.Name) and c.func.id[:1].isupper())) for c in [v] if isinstance(v, ast.Call))
 
-    # ------------------------------------------------------------ 8 details
+        copies = cfg.nodes(lambda s: isinstance(s, (ast.Assign, ast.AnnAssign)) and s.value is not None and fresh(s.value) and any(norm(t) == norm(val) for t in (s.targets if isinstance(s, ast.Assign) else [s.target])))
+        inline = isinstance(val, ast.Call) and fresh(val)
+        copied = inline or (bool(copies) and cfg.must_pass(ENTRY, app[0], set(copies), normal_only=True))
+        ctx.add("7-fresh-objects", ad, cfg.stmt[app[0]], copied, "add() appends a copy of the function" if copied else
+                f"Pipeline.add can append the caller's own object `{norm(val)}` (no copy on some path): later updates through the pipeline change the caller's function and other pipelines", key="add-copies")
+    ni = npf.methods["__init__"]
+    t = norm(ni.node)
+    shares = re.search(r"Pipeline\((\w+)", t)
+    pparam = [p_ for p_ in ni.param_names() if p_ != "self"][0]
+    ctx.tri("7-fresh-objects", ni, ni.node, ".copy(" in t, bool(shares) and shares.group(1) == pparam and ".copy(" not in t, "a NestedPipeFunc owns copies of its functions",
+            "NestedPipeFunc builds its pipeline from the caller's function objects", key="nested-copies")
+    for nm in ("join", "split_disconnected"):
+        f = pl.methods[nm]
+        ctx.tri("7-fresh-objects", f, f.node, ".copy(" in norm(f.node), False, f"{nm} builds new pipelines from copies", "", f"{nm}: no copy recognised", key=nm)
+
+
+def rule_details(ctx: Ctx) -> None:
+    P = ctx.prog
+    pf = P.cls(f"{PFM}.PipeFunc")
     pn = P.func(f"{PFM}._prepend_name_with_scope")
-    tests = [norm(s.test) for s in pn.node.body if isinstance(s, ast.If)]
-    ok = "name.startswith(f'{scope}.')" in tests
-    ctx.add("8-details", pn, pn.node, ok, "a name counts as scoped only if it starts with `scope.` (with the dot)" if ok else "the already-scoped test lost its dot: names that merely start with the scope text (x0 under scope x) stay unscoped", key="scope-dot")
+    d = Defs(pn)
+    sw = [c for c in ast.walk(pn.node) if isinstance(c, ast.Call) and isinstance(c.func, ast.Attribute) and c.func.attr == "startswith" and c.args]
+    sparam = [p_ for p_ in pn.param_names() if "scope" in p_]
+    if sw and sparam:
+        a0 = d.resolve(sw[0].args[0])
+        dotted_ = any(isinstance(x, ast.Constant) and isinstance(x.value, str) and "." in x.value for x in ast.walk(a0))
+        ctx.tri("8-details", pn, sw[0], dotted_, isinstance(a0, ast.Name) and a0.id == sparam[0], "a name counts as scoped only if it starts with `scope.` (with the dot)",
+                "the already-scoped test lost its dot: names that merely start with the scope text (x0 under scope x) stay unscoped", f"prefix `{norm(a0)[:30]}`", key="scope-dot")
     on = P.func("pipefunc._pipeline._simplify._output_name")
-    oi = [s for s in walk_no_nested(on.node) if isinstance(s, ast.Assign) and norm(s.targets[0]) == "other_inputs"]
-    ok = bool(oi) and "for j, fs in enumerate(nested_funcs) if j != i" in norm(oi[0].value) and "| all_inputs" in norm(oi[0].value)
-    ctx.add("8-details", on, oi[0] if oi else on.node, ok, "a nested group exposes every output that ANY other group or remaining function needs" if ok else "only some of the other groups are considered when deciding which intermediate outputs to expose", key="simplify-outputs")
+    its = [it for it in iterations(on.node) if "nested_funcs" in norm(it["iter"])]
+    sliced = [it for it in its if any(isinstance(x, ast.Subscript) and isinstance(x.slice, ast.Slice) for x in ast.walk(it["iter"]))]
+    ctx.tri("8-details", on, (sliced or its or [{"node": on.node}])[0]["node"], bool(its) and not sliced, bool(sliced), "a nested group exposes every output that ANY other group or remaining function needs",
+            f"only `{norm(sliced[0]['iter']) if sliced else ''}` of the other groups is considered when deciding which intermediate outputs to expose: an output needed by an earlier group is hidden", "iteration over the groups not recognised", key="simplify-outputs")
     us = pf.methods["update_scope"]
-    ok = "renames = {name: _prepend_name_with_scope(name, scope) for name in all_parameters}" in norm(us.node) and "self.update_renames(renames, update_from='current')" in norm(us.node)
-    ctx.add("8-details", us, us.node, ok, "update_scope is a rename of exactly the selected names" if ok else "update_scope changed", key="scope-is-rename")
+    ctx.tri("8-details", us, us.node, "update_renames(" in norm(us.node) and "_prepend_name_with_scope(" in norm(us.node), False, "update_scope is a rename of exactly the selected names", "", "update_scope not recognised", key="scope-is-rename")
+
+
+def check(ctx: Ctx) -> None:
+    for rule in (rule_copy_carries, rule_no_inplace, rule_result_keys, rule_sort_keys, rule_pickle_state, rule_foreign_writes, rule_fresh_objects, rule_details):
+        ctx.run(rule)
 
 
 PF, B, S, C = "pipefunc/_pipefunc.py", "pipefunc/_pipeline/_base.py", "pipefunc/_pipeline/_simplify.py", "pipefunc/_pipeline/_cache.py"
